@@ -1,21 +1,40 @@
-"""Property id -> run / replay functions."""
+"""Property id -> run / replay functions and the MANIFEST metadata of each claimed check."""
 from . import sem_props
 from .main import COMMON_ASSUMPTIONS
 
 PROPS = {}
+META = {}
+NOT_APPLICABLE = {}
+HOOK_COMMITS = []
+
+NOTE_SEM = ("Trusted base: TLC's evaluation of specs/Sem.tla (reference semantics over exact complex "
+            "dyadic rationals / Taylor jets), the JSON emission, the adapter that builds cirkit "
+            "objects through public constructors and writes parameter values through "
+            "TorchCompiler.state.retrieve_compiled_parameter, float64 comparison at rtol 1e-9. "
+            "Bounded: layers, units, arity, variables, operator-chain length are configuration "
+            "constants; parameter values are generic finite valuations, not all reals.")
 
 
-def _sem(pid, rule, extra_assumptions=()):
+def _sem(pid, rule, text, technique, extra_assumptions=()):
     PROPS[pid] = {
         "run": lambda tier, seed: sem_props.run(pid, tier, seed, rule,
                                                 COMMON_ASSUMPTIONS + list(extra_assumptions)),
         "replay": lambda path: sem_props.replay_file(path, pid),
     }
+    META[pid] = {"text": text, "note": NOTE_SEM, "technique": technique,
+                 "design_ref": f"DESIGN.md section 6 ({pid})"}
 
 
-_sem("C01", "TLC enumerates every well-typed layered DAG within the configuration bounds "
-            "(CircuitSys: AddInput/AddInner/Finish); each emitted state is one behaviour = one "
-            "symbolic circuit + generic store + the Den table computed by TLC; it is built, "
-            "compiled under a rotating subset (quick) / all (thorough) of the 12 "
-            "semiring x fold x optimize combinations and evaluated on all assignments in batch "
-            "shapes all / B=1 / B=fold count / permuted. distinct = distinct TLC states emitted.")
+_sem("C01",
+     "TLC enumerates every well-typed layered DAG within the configuration bounds "
+     "(CircuitSys: AddInput/AddInner/Finish); each emitted state is one behaviour = one "
+     "symbolic circuit + generic store + the Den table computed by TLC; it is built, "
+     "compiled under a rotating subset (quick) / all (thorough) of the 12 "
+     "semiring x fold x optimize combinations and evaluated on all assignments in batch "
+     "shapes all / B=1 / B=fold count / permuted. distinct = distinct TLC states emitted.",
+     "Exhaustive (within small constants) TLC enumeration of symbolic circuits with the denoted "
+     "function computed by the TLA+ reference semantics; every emitted state is replayed into "
+     "cirkit's compiler and the full output table compared, per semiring/fold/optimize and batch "
+     "shape. Decides the property for all circuits within the bounds under generic valuations.",
+     "TLA+ reference semantics (Sem.tla) + TLC state enumeration (CircuitSys.tla) + replay of "
+     "every emitted behaviour into cirkit")
